@@ -34,6 +34,7 @@ type PropCfg struct {
 	Schema bool        `json:"schema"`
 	Note   string      `json:"note"`
 	Alloc  bool        `json:"alloc"`
+	CmdSchema bool     `json:"cmd_schema"`
 }
 
 type NotClaimed map[string]string
@@ -117,7 +118,32 @@ func run() int {
 	if cfg.Alloc {
 		w.AllocBudget = vc.InputAllocBudget
 	}
+	var outOfSchema []string
+	if cfg.CmdSchema {
+		for _, sc := range w.CommandSchemas() {
+			if sc.Unsup != "" {
+				outOfSchema = append(outOfSchema, sc.Type+": "+sc.Unsup)
+				continue
+			}
+			cts, err := vc.ParseContractSource(sc.MarshalContractText(), "schema:"+sc.Type, sc.PkgPath)
+			if err != nil {
+				fmt.Fprintln(os.Stderr, "schema:", err)
+				return 2
+			}
+			for _, ct := range cts {
+				if _, have := w.Contracts[ct.Key]; have {
+					continue
+				}
+				if _, ok := w.FnByKey[ct.Key]; !ok {
+					continue
+				}
+				ct.Schema = "SMB command layout (derived from the struct declaration and MS-CIFS encoding rules)"
+				w.Contracts[ct.Key] = ct
+			}
+		}
+	}
 	tLoad := time.Since(t0).Seconds()
+	outOfSchemaG = outOfSchema
 
 	// ---- select functions ----
 	type job struct {
@@ -534,6 +560,14 @@ func run() int {
 		fmt.Printf("VIOLATION property=%s replay=%s obligation=%q%s\n", *prop, path, g.Name, suffix)
 		if *dump != "" {
 			os.MkdirAll(*dump, 0o755)
+			for k, o := range g.Instances {
+				if o.Trivial || ctxOf[o] == nil {
+					continue
+				}
+				as := append([]*vc.Term{}, o.Assume...)
+				as = append(as, ctxOf[o].Ctx.Not(o.Goal))
+				os.WriteFile(filepath.Join(*dump, safeName(g.Name)+fmt.Sprintf("_i%d_%s_%s.smt2", k, o.Status, o.Solver)), []byte(ctxOf[o].Ctx.Script(w.Prelude, as, nil)), 0o644)
+			}
 			asserts := append([]*vc.Term{}, g.Worst.Assume...)
 			asserts = append(asserts, r.Ctx.Not(g.Worst.Goal))
 			os.WriteFile(filepath.Join(*dump, safeName(g.Name)+".smt2"), []byte(r.Ctx.Script(w.Prelude, asserts, nil)), 0o644)
@@ -658,6 +692,8 @@ func matchKnown(ks []*knownFinding, name string) *knownFinding {
 	return nil
 }
 
+var outOfSchemaG []string
+
 func writeEvidence(w *vc.World, cfg *PropCfg, results []*vc.FnResult, groups map[string]*oblGroup, order []string, violations, knownHit, skipped []*oblGroup,
 	nObl, nDis, coverOK, coverBad, seed int, wall, tLoad, tGen, tSolve float64, known []*knownFinding) {
 	var fns []map[string]interface{}
@@ -760,6 +796,7 @@ func writeEvidence(w *vc.World, cfg *PropCfg, results []*vc.FnResult, groups map
 			"known_finding_obligations": kf,
 			"attempted_not_claimed":     nc,
 			"out_of_subset":             oos,
+			"out_of_schema":             outOfSchemaG,
 			"violations":                vio,
 			"timing_s":                  map[string]float64{"load": round3(tLoad), "generate": round3(tGen), "solve": round3(tSolve)},
 			"contract_files":            relAll(w.ContractFiles),
